@@ -54,6 +54,14 @@ def to_py_col(k):
         return slice(*k['v'])
     if t == 'list':
         l = [atom_py(a) for a in k['v']]
+        if k.get('oneshot') == 'gen':
+            return (x for x in l)                    # iterables that can be walked only once
+        if k.get('oneshot') == 'iter':
+            return iter(l)
+        if k.get('oneshot') == 'reversed':
+            return reversed(l[::-1])
+        if k.get('oneshot') == 'map':
+            return map(lambda x: x, l)
         return tuple(l) if k.get('tuple') else l
     if t == 'ellipsis':
         return Ellipsis
@@ -214,6 +222,11 @@ class Prop(common.PropertyCheck):
                     yield {'N': N, 'D': D, 'keys': [[{'t': 'slice', 'v': [a, a + k, None]}, ck]], 'set': True}
                     yield {'N': N, 'D': D, 'keys': [[{'t': 'ints', 'v': list(range(a, a + k))}, ck]], 'set': True}
                     yield {'N': N, 'D': D, 'keys': [[{'t': 'slice', 'v': [a, a + k, None]}, {'t': 'slice', 'v': [0, k, None]}]], 'set': True}
+        # channel keys given as iterables that can be walked only once (generator, iterator, reversed, map)
+        for i in range(self.budget(40, 300)):
+            N, D = rng.randrange(1, 6), rng.randrange(2, 6)
+            atoms = [({'t': 'name', 'v': 'ch%d' % c} if rng.random() < 0.5 else {'t': 'pos', 'v': c - (D if rng.random() < 0.3 else 0)}) for c in rng.sample(range(D), rng.randrange(1, D + 1))]
+            yield {'N': N, 'D': D, 'keys': [[self.rand_row(N), {'t': 'list', 'v': atoms, 'oneshot': ['gen', 'iter', 'reversed', 'map'][i % 4]}]], 'oneshot': True}
         # a one-channel column (1-D) taken first, then events selected from it: the channel metadata stays that of the one channel
         for N in (1, 2, 4):
             for D in (1, 3):
@@ -360,9 +373,30 @@ class Prop(common.PropertyCheck):
                     if len(shp) == 2:
                         items['per_channel'] = 50000 + np.arange(shp[1])
                         items['per_event'] = (52000 + np.arange(shp[0])).reshape(shp[0], 1)
+                    if len(shp) == 2 and shp[1] <= D and isinstance(rk, dict) and rk['t'] == 'slice':
+                        items['own_view'] = 'own_view'      # a block of the sample itself (overlapping the addressed cells), given as a view
+                        items['own_view_rev'] = 'own_view_rev'
                     res = {}
                     for nm, item in sorted(items.items()):
                         pw = before.copy()
+                        if isinstance(item, str):
+                            # source and destination overlap: NumPy buffers the source; the sample behaves like the plain array
+                            sl = slice(0, shp[1]) if item == 'own_view' else slice(shp[1] - 1, None, -1) if shp[1] >= 1 else slice(0, 0)
+                            try:
+                                src_plain = pw[to_py_row(rk), sl]
+                                if list(np.shape(src_plain)) != shp:
+                                    continue
+                                w2 = parent.copy()
+                                if pc == ROWONLY:
+                                    continue
+                                pw[to_py_row(rk), pc] = src_plain
+                                w2[to_py_row(rk), to_py_col(ck)] = w2[to_py_row(rk), sl]
+                                diff = np.argwhere(np.asarray(w2) != pw)
+                                res[nm] = None if len(diff) == 0 else 'cell (%d, %d) holds %d, plain array assignment puts %d there' % (
+                                    diff[0][0], diff[0][1], int(np.asarray(w2)[tuple(diff[0])]), int(pw[tuple(diff[0])]))
+                            except Exception as e:
+                                res[nm] = 'raised %s: %s' % (type(e).__name__, str(e)[:60])
+                            continue
                         try:
                             if pc == ROWONLY:
                                 pw[to_py_row(rk)] = item
